@@ -223,7 +223,7 @@ pub fn strategy() -> BoxedStrategy<Case> {
         1 => (0usize..3, prop_oneof![Just(0u64), Just(1000), Just(3000), 0u64..12_000]).prop_map(|(inst, timeout_ms)| Op::Verify { inst, timeout_ms }),
         1 => (0usize..2).prop_map(|ty| Op::Rebrowse { ty }),
         1 => (0usize..2).prop_map(|ty| Op::StopStart { ty }),
-        1 => (any::<bool>(), prop_oneof![Just(0u64), Just(100), Just(700)]).prop_map(|(on, delay_ms)| Op::Responder { on, delay_ms }),
+        1 => (any::<bool>(), prop_oneof![Just(0u64), Just(100), Just(700)]).prop_map(|(on, delay_ms)| Op::Responder { on, delay_ms, mute: 0 }),
     ];
     (
         iftable(2),
